@@ -74,6 +74,19 @@ class Model:
 N_THETA = {"constant": 1, "linear": 2, "expdecay": 3, "sin": 3}
 
 
+class ScalarModel:
+    """the forward model of a single datum that returns a plain number (its Jacobian keeps the documented (1, n_params) shape)"""
+
+    def __init__(self, inner):
+        self.inner = inner
+
+    def __call__(self, th):
+        return float(np.asarray(self.inner(th)).ravel()[0])
+
+    def jac(self, th):
+        return self.inner.jac(th)
+
+
 class MemoModel:
     """a forward model that remembers its last evaluation (as expensive simulation codes do) and hands out the same array again when
     asked for the same parameters; `identity` is the model whose predictions are the parameters themselves (returned as given)"""
@@ -141,27 +154,45 @@ def cases(draw):
     # whole-number data / uncertainties may be held in integer arrays or lists of Python ints
     return {"seed": 0, "cls": cls, "model": kind, "x": x, "theta": theta, "log10s": logs, "z": zs,
             "container": container, "with_jac": draw(st.booleans()),
-            "s_dtype": draw(st.sampled_from(["float", "float", "float", "int64", "int32", "pyint"])),
-            "y_dtype": draw(st.sampled_from(["float", "float", "float", "int64", "pyint"]))}
+            "s_dtype": draw(st.sampled_from(["float", "float", "float", "int64", "int32", "pyint", "uint8", "int8", "int16", "uint16", "float32", "float16"])),
+            "y_dtype": draw(st.sampled_from(["float", "float", "float", "int64", "pyint", "int16", "float32"])),
+            # "any scale": also uncertainties whose squares / inverse squares leave the float range
+            "extreme_log": draw(st.sampled_from([None] * 10 + [-170.0, -158.0, 158.0, 170.0])),
+            # a single datum may be given as a plain number, with a forward model that returns a plain number
+            "scalar_datum": draw(st.booleans())}
 
 
 def build(case):
     model = Model(case["model"], case["x"], len(case["theta"]))
     th = np.array(case["theta"], dtype=float)
     s = 10.0 ** np.array(case["log10s"])
-    if case.get("s_dtype", "float") != "float":
-        s = np.clip(np.round(s), 1.0, 1e9)
+    sd, yd = case.get("s_dtype", "float"), case.get("y_dtype", "float")
+    if case.get("extreme_log") is not None and sd == "float" and yd == "float":
+        s = s * 10.0 ** (case["extreme_log"] - np.mean(case["log10s"]))
+    if sd in ("float32", "float16"):
+        # the same numbers must be representable in the narrow type: round them through it
+        lo, hi = (1e-3, 6e4) if sd == "float16" else (1e-30, 1e30)
+        s = np.clip(s, lo, hi).astype(sd).astype(float)
+    elif sd != "float":
+        top = {"uint8": 255, "int8": 127, "int16": 32767, "uint16": 65535}.get(sd, 1e9)
+        s = np.clip(np.round(s), 1.0, top)
     F = model(th)
     y = F + np.array(case["z"]) * s
-    if case.get("y_dtype", "float") != "float" and np.all(np.abs(y) < 2**52):
+    if yd == "float32":
+        if np.all(np.abs(y) < 1e37):
+            y = y.astype(np.float32).astype(float)
+    elif yd != "float" and np.all(np.abs(y) < (2**52 if yd != "int16" else 32767)):
         y = np.round(y)
     return model, th, y, s, F
 
 
 def wrap(arr, container, dtype="float"):
     a = np.array(arr, dtype=float)
-    if dtype in ("int64", "int32") and np.all(np.abs(a) < 2**31 - 1) and np.all(a == np.round(a)):
-        a = a.astype(dtype)
+    if dtype not in ("float", "pyint"):
+        with np.errstate(all="ignore"):
+            b = a.astype(dtype)
+        if np.array_equal(b.astype(float), a):      # (only if the type holds exactly these numbers)
+            a = b
     if container == "list" or dtype == "pyint":
         if dtype == "pyint" and np.all(a == np.round(a)) and np.all(np.abs(a) < 2**52):
             out = [int(v) for v in a]
@@ -177,8 +208,13 @@ def body_value(case, ctx):
     model, th, y, s, F = build(case)
     cls = case["cls"]
     n = y.size
-    like = CLASSES[cls](wrap(y, case["container"], case.get("y_dtype", "float")), wrap(s, case["container"], case.get("s_dtype", "float")), model,
-                        forward_model_jacobian=model.jac if case["with_jac"] else None)
+    if n == 1 and case.get("scalar_datum"):
+        sm = ScalarModel(model)
+        like = CLASSES[cls](float(y[0]), float(s[0]), sm, forward_model_jacobian=sm.jac if case["with_jac"] else None)
+        ctx.event("single datum given as a plain number")
+    else:
+        like = CLASSES[cls](wrap(y, case["container"], case.get("y_dtype", "float")), wrap(s, case["container"], case.get("s_dtype", "float")), model,
+                            forward_model_jacobian=model.jac if case["with_jac"] else None)
     with np.errstate(all="ignore"):
         val = like(th)
     if np.ndim(val) != 0:
@@ -222,7 +258,12 @@ def body_gradient(case, ctx):
         y, s, F = y[:12], s[:12], F[:12]
         model = Model(case["model"], case["x"][:12], len(case["theta"]))
         n = 12
-    like = CLASSES[cls](wrap(y, "array", case.get("y_dtype", "float")), wrap(s, "array", case.get("s_dtype", "float")), model, forward_model_jacobian=model.jac)
+    if n == 1 and case.get("scalar_datum"):
+        sm = ScalarModel(model)
+        like = CLASSES[cls](float(y[0]), float(s[0]), sm, forward_model_jacobian=sm.jac)
+        ctx.event("single datum given as a plain number")
+    else:
+        like = CLASSES[cls](wrap(y, "array", case.get("y_dtype", "float")), wrap(s, "array", case.get("s_dtype", "float")), model, forward_model_jacobian=model.jac)
     with np.errstate(all="ignore"):
         g = np.asarray(like.gradient(th), dtype=float)
         cg = np.asarray(like.cost_gradient(th), dtype=float)
@@ -232,7 +273,8 @@ def body_gradient(case, ctx):
     if not np.array_equal(cg, -g):
         raise Violation(f"cost-gradient:{cls}", f"cost_gradient {cg} is not the exact negative of {g}")
     # derivative of the reference log-density w.r.t. each prediction, numerically in 40 digits
-    dLdF = [mp.diff(lambda f, i=i: ref_logpdf(cls, y[i], f, s[i]), mp.mpf(F[i])) for i in range(n)]
+    # (the step follows the scale of the datum: the density changes over distances of order s[i], whatever that is)
+    dLdF = [mp.diff(lambda f, i=i: ref_logpdf(cls, y[i], f, s[i]), mp.mpf(F[i]), h=mp.mpf(s[i]) * mp.mpf("1e-9")) for i in range(n)]
     J = model.jac(th)
     zabs = np.abs((y - F) / s)
     gmax = {"gauss": np.maximum(zabs, 1.0) / s, "cauchy": 1.0 / s, "logistic": np.pi / (np.sqrt(3) * s)}[cls]
@@ -303,6 +345,7 @@ def body_missing_jacobian(case, ctx):
 @st.composite
 def history_cases(draw):
     base = draw(cases())
+    base["extreme_log"] = None        # (scales at the ends of the float range are the subject of the value / gradient sub-checks)
     base["x"], base["log10s"], base["z"] = base["x"][:12], base["log10s"][:12], base["z"][:12]
     p = len(base["theta"])
     alts = []
